@@ -72,6 +72,10 @@ SetClaim(b, k, v) ==
     IN GSet(b1, k, v)
   ELSE GSet([b EXCEPT !.supplied[k] = b.supplied[k] + 1], k, v)
 
+\* the value stored when extend_claims is handed the boxed claim object {key: v} itself
+\* @type: (Str) => Str;
+WrapVal(v) == IF v = "v2" THEN "wv2" ELSE "wv1"
+
 \* GenericBuilder::remove_claim (not exposed by PasetoBuilder)
 \* @type: ($bstate, Str) => $bstate;
 RemoveClaim(b, k) == [b EXCEPT !.claims[k] = Absent]
@@ -119,7 +123,7 @@ Apply(b, o) ==
     [] o.op = "remove"    -> RemoveClaim(b, o.k)
     \* GenericBuilder::extend_claims with one entry: a plain value / a boxed claim object
     [] o.op = "extend"    -> GSet(b, o.k, o.v)
-    [] o.op = "extendw"   -> GSet(b, o.k, "w" \o o.v)
+    [] o.op = "extendw"   -> GSet(b, o.k, WrapVal(o.v))
     \* extend_claims with a batch of two entries (both custom keys): every entry of the batch replaces
     \* what the builder held, whatever the sizes of the two maps
     [] o.op = "extend2"   -> GSet(GSet(b, "ca", o.v), "cb", o.v)
